@@ -3,8 +3,8 @@
    key_tab / key_rows (Gen/C07_Schemas.v) are reflected / tabulated from the real line classes on every
    run.  [fields_ok tab sch vs] = "every field value its format version allows": each value survives its
    own codec (field_rt, proved per codec below) and its text fits the character class of the pattern. *)
-From PV Require Import Lib.Base Model.C07 Gen.C07_Schemas Proofs.C07_lib Proofs.C07.
-From Coq Require Import QArith Ascii.
+From PV Require Import Lib.Base Lib.Round Model.C07 Gen.C07_Schemas Proofs.C07_lib Proofs.C07 Proofs.C07_codec Proofs.C07_hist.
+From Coq Require Import QArith Qabs Ascii.
 #[local] Open Scope string_scope.
 #[local] Open Scope Z_scope.
 
@@ -110,7 +110,163 @@ Theorem frac_bound_noop : forall n d, n <= frac_bound -> d <= frac_bound -> boun
 Proof. exact bound_pair_noop. Qed.
 Print Assumptions frac_bound_noop.
 
-Theorem frac_bound_partial :
+(* three computed instances of what bound_integers does above the bound (the value is approximated) *)
+Theorem frac_bound_examples :
   bound_pair 1025 1023 = (2, 2) /\ bound_pair 2048 4 = (1024, 2) /\ bound_pair 3 2048 = (1, 128).
 Proof. exact frac_bound_partial_lemma. Qed.
-Print Assumptions frac_bound_partial.
+Print Assumptions frac_bound_examples.
+
+(* ---------------------------------------------------------------- codecs proved for ALL values (Proofs/C07_codec.v) *)
+
+(* d-decimal fixed point (f"{x:.4f}", .5f, .2f / float): +-m/10^d written and read gives +-m/10^d ... *)
+Theorem fix_codec_rt : forall tab d neg m, 0 <= m -> field_rt tab (CFix d) (VDec neg m).
+Proof. exact fix_codec_rt_lemma. Qed.
+Print Assumptions fix_codec_rt.
+
+(* ... and an arbitrary float +-q comes back as its round-half-even d-decimal rounding (then a fixpoint) *)
+Theorem fix_codec_float_rt : forall tab d neg q, (0 <= q)%Q -> field_rt tab (CFix d) (VQ neg q).
+Proof. exact fix_codec_float_rt_lemma. Qed.
+Print Assumptions fix_codec_float_rt.
+
+(* FractionalSymbolicDuration text, plain form a, a/b, a/b/c within the constructor's bound: the same object *)
+Theorem frac_codec_rt : forall n d td,
+  triple_ok (n, d, td) -> parse_frac (print_frac (mkfrac n d td None)) = Some (mkfrac n d td None).
+Proof. exact frac_codec_rt_simple_lemma. Qed.
+Print Assumptions frac_codec_rt.
+
+(* a sum text c1+c2+...+ck (k >= 2, any k) is read as the left-to-right sum of its components *)
+Theorem frac_sum_text_parse : forall cs,
+  (2 <= List.length cs)%nat -> Forall triple_ok cs ->
+  parse_frac (join "+" (map print_triple cs)) = Some (frac_of_comps cs).
+Proof. exact frac_sum_text_parse_lemma. Qed.
+Print Assumptions frac_sum_text_parse.
+
+(* O2 for durations with additive components: whatever bound_integers did to the numeric fields, the
+   text is read back as an object that prints the identical text and holds the same components *)
+Theorem frac_text_fixpoint : forall f cs,
+  fcomps f = Some cs -> (2 <= List.length cs)%nat -> Forall triple_ok cs -> filter nz cs = cs ->
+  exists g, parse_frac (print_frac f) = Some g /\ print_frac g = print_frac f /\ fcomps g = Some cs.
+Proof. exact frac_text_fixpoint_lemma. Qed.
+Print Assumptions frac_text_fixpoint.
+
+(* exact addition keeps "numeric value = sum of the printed components" (frac_inv); plain durations have it *)
+Theorem frac_inv_add : forall f g, frac_inv f -> frac_inv g -> add_within f g -> frac_inv (frac_add f g).
+Proof. exact frac_inv_add_lemma. Qed.
+Print Assumptions frac_inv_add.
+
+Theorem frac_inv_plain : forall f, fcomps f = None -> frac_inv f.
+Proof. exact frac_inv_simple. Qed.
+Print Assumptions frac_inv_plain.
+
+(* O4: a duration with additive components keeps its VALUE through its text while the partial sums
+   of the re-reading stay within the bound (fold_within) *)
+Theorem frac_text_value_rt : forall f cs,
+  fcomps f = Some cs -> (2 <= List.length cs)%nat -> Forall triple_ok cs -> filter nz cs = cs ->
+  frac_inv f -> fold_within frac_zero (map frac_of_triple cs) ->
+  exists g, parse_frac (print_frac f) = Some g /\ (frac_value g == frac_value f)%Q /\
+            print_frac g = print_frac f.
+Proof. exact frac_text_value_rt_lemma. Qed.
+Print Assumptions frac_text_value_rt.
+
+Theorem frac_text_value_hyps_satisfiable :
+  let cs := [(1, 4, None); (1, 16, None); (1, 8, Some 3)] in
+  let f := frac_of_comps cs in
+  fcomps f = Some cs /\ Forall triple_ok cs /\ filter nz cs = cs /\ frac_inv f /\
+  fold_within frac_zero (map frac_of_triple cs) /\ print_frac f = "1/4+1/16+1/8/3".
+Proof. exact frac_text_value_example. Qed.
+Print Assumptions frac_text_value_hyps_satisfiable.
+
+(* time signatures n/d within the bound, also in the old list form with beat components *)
+Theorem timesig_codec_rt : forall tab n d,
+  0 <= n <= frac_bound -> 0 <= d <= frac_bound -> field_rt tab (CTime false) (VTime n d []).
+Proof. exact timesig_codec_rt_lemma. Qed.
+Print Assumptions timesig_codec_rt.
+
+Theorem timesig_list_codec_rt : forall tab n d others,
+  0 <= n <= frac_bound -> 0 <= d <= frac_bound -> Forall simple_ok others ->
+  field_rt tab (CTime true) (VTime n d others).
+Proof. exact timesig_list_codec_rt_lemma. Qed.
+Print Assumptions timesig_list_codec_rt.
+
+(* the boundary: a time signature above the bound is NOT kept (2048/4 is read back as 1024/2) *)
+Theorem timesig_above_bound_refuted : forall tab,
+  exists t, enc tab (CTime false) (VTime 2048 4 []) = Some t /\ dec tab (CTime false) t = Some (VTime 1024 2 []).
+Proof. exact timesig_above_bound_lemma. Qed.
+Print Assumptions timesig_above_bound_refuted.
+
+(* ---------------------------------------------------------------- histories (Proofs/C07_hist.v) *)
+
+(* whatever a program of duration operations does later (additions on either side, int +, radd, sum,
+   parsing, comparisons), an object that exists keeps its fields -- the model's operations are pure
+   functions of the operands' values; the implementation is held to this after every step (prog_check) *)
+Theorem prog_run_keeps : forall prog env env' i f,
+  prog_run env prog = Some env' -> nth_error env i = Some f ->
+  nth_error env' i = Some f.
+Proof. exact prog_run_keeps_lemma. Qed.
+Print Assumptions prog_run_keeps.
+
+Theorem frac_sum_py_is_left_sum : forall x r, frac_sum_py (x :: r) = Some (frac_sum (x :: r)).
+Proof. exact frac_sum_py_spec. Qed.
+Print Assumptions frac_sum_py_is_left_sum.
+
+Theorem prog_hyps_satisfiable :
+  exists env, prog_run [] [SParse "1/4+1/16"; SNew 1 32 None; SAdd 0 1; SNew 1 8 (Some 3); SAdd 0 3; SNop; SSum [0%nat; 0%nat]] = Some env /\
+    map print_frac env = ["1/4+1/16"; "1/32"; "1/4+1/16+1/32"; "1/8/3"; "1/4+1/16+1/8/3"; "1/4+1/16+1/4+1/16"].
+Proof. exact prog_example. Qed.
+Print Assumptions prog_hyps_satisfiable.
+
+(* known finding C07-K1, the exact boundary of "durations keep their value through strings" in the model
+   that carries the behaviour: 0/4 + 0/8 prints as the empty text, which is not read back *)
+Theorem frac_zero_sum_text_refuted :
+  print_frac (frac_add (mk_frac 0 4 None None) (mk_frac 0 8 None None)) = "" /\ parse_frac "" = None.
+Proof. exact frac_zero_sum_text_lemma. Qed.
+Print Assumptions frac_zero_sum_text_refuted.
+
+(* ---------------------------------------------------------------- O3: to_v1 keeps the musical content *)
+
+(* a performed note: id and velocity kept, pitch = 12 (octave + 1) + pitch class + alteration, ticks
+   kept (rounded to the nearest tick when the old version stored a float), channel 1, track 0 *)
+Theorem to_v1_note_content : forall id step alt oct on off vel out adj,
+  note_to_v1 (match adj with
+              | Some a => [VStr id; VStr step; alt; VInt oct; on; off; a; vel]
+              | None => [VStr id; VStr step; alt; VInt oct; on; off; vel]
+              end) = Some out ->
+  exists a p on' off',
+    alter_of alt = Some a /\ midi_pitch step a oct = Some p /\
+    tick_to_v1 on = Some on' /\ tick_to_v1 off = Some off' /\
+    out = [VStr id; VInt p; on'; off'; vel; VInt 1; VInt 0].
+Proof. exact note_to_v1_content. Qed.
+Print Assumptions to_v1_note_content.
+
+Theorem to_v1_pitch : forall step a oct p, midi_pitch step a oct = Some p ->
+  exists b, step_pc step = Some b /\ p = 12 * (oct + 1) + b + a.
+Proof. exact midi_pitch_spec. Qed.
+Print Assumptions to_v1_pitch.
+
+Theorem to_v1_tick_int : forall z, tick_to_v1 (VInt z) = Some (VInt z).
+Proof. exact tick_to_v1_int. Qed.
+Print Assumptions to_v1_tick_int.
+
+Theorem to_v1_tick_nearest : forall neg q t, tick_to_v1 (VQ neg q) = Some (VInt t) ->
+  (Qabs ((if neg then - q else q) - inject_Z t) <= 1 # 2)%Q.
+Proof. exact tick_to_v1_near. Qed.
+Print Assumptions to_v1_tick_nearest.
+
+(* the score note of a pair (anchor, spelling, measure, beat, offset, duration, beat times, attributes) *)
+Theorem to_v1_snote_kept : forall sn no out,
+  List.length sn = snote_len -> line_to_v1 KSnoteNote (sn ++ no)%list = Some out ->
+  exists no', note_to_v1 no = Some no' /\ out = (sn ++ no')%list.
+Proof. exact to_v1_keeps_snote. Qed.
+Print Assumptions to_v1_snote_kept.
+
+(* deletions (all three old kinds) and pedal lines: every field kept *)
+Theorem to_v1_deletion_pedal_kept : forall vs,
+  line_to_v1 KSnoteOnly vs = Some vs /\ line_to_v1 KPedal vs = Some vs.
+Proof. exact to_v1_keeps_deletion_and_pedal. Qed.
+Print Assumptions to_v1_deletion_pedal_kept.
+
+Theorem to_v1_trill_anchor : forall anchor no out,
+  line_to_v1 KTrill (anchor :: no) = Some out ->
+  exists no', note_to_v1 no = Some no' /\ out = anchor :: VList ["trill"] :: no'.
+Proof. exact to_v1_trill. Qed.
+Print Assumptions to_v1_trill_anchor.
